@@ -333,7 +333,7 @@ STAGE_OF = {"W0": "_W0_step", "V0": "_V0_step", "W": "_W_step", "V2": "_V2_step"
             "eta1": "_prec_V1_step", "gam": "_prec_W_step"}
 
 
-def check_sweep(spec, sweep_no, before, trace, data, y_ref, fail):
+def check_sweep(spec, sweep_no, before, trace, data, y_ref, fail, counts):
     """all implementation-only oracles of one sweep; returns the canonical impl log [(site, kind, args, scale, value)]
     or None when the draw sequence has the wrong shape.  `fail(what, observed, required, signature)` reports."""
     nC, nT, D = spec["nC"], spec["nT"], spec["D"]
@@ -439,11 +439,13 @@ def check_sweep(spec, sweep_no, before, trace, data, y_ref, fail):
                     # MVN: result = U^-1 z + Q^-1 b  (float64, on the recorded float32 Q)
                     try:
                         L = np.linalg.cholesky(rec["Q"])
-                        want = np.linalg.solve(L.T, rec["z"]) + np.linalg.solve(rec["Q"], rec["b"])
+                        t1, t2 = np.linalg.solve(L.T, rec["z"]), np.linalg.solve(rec["Q"], rec["b"])
                         cond = np.linalg.cond(rec["Q"])
-                        if not close(rec["value"], want, np.max(np.abs(want)), tol=min(0.2, 1e-5 * max(1.0, cond))):
+                        if 1e-5 * cond > 0.05:
+                            counts["mvn.ill_conditioned_skipped"] = counts.get("mvn.ill_conditioned_skipped", 0) + 1
+                        elif not close(rec["value"], t1 + t2, np.abs(t1) + np.abs(t2), tol=1e-5 * max(1.0, cond)):
                             fail("sample_mvn_from_precision(Q, mu_part, z) is not U^-1 z + Q^-1 mu_part",
-                                 {"site": site, "result": rec["value"].tolist()}, {"expected": want.tolist(), "cond": float(cond)}, "C08:mvn")
+                                 {"site": site, "result": rec["value"].tolist()}, {"expected": (t1 + t2).tolist(), "cond": float(cond)}, "C08:mvn")
                     except np.linalg.LinAlgError:
                         pass
                 log.append((site, "mvn", args, scale, value))
@@ -613,6 +615,7 @@ def compare_with_model(res, case, out, log, trace, after, pred, N, sweep_no):
     sscale = np.abs(np.asarray(istate, dtype=np.float64))
     if N:
         sscale[-N:] = trace["muabs"][STAGES[-1]]
+        sscale[0] = log[0][3][0] + 1.0      # alpha = float32 mean of the observations: noise relative to mean|y|
     if len(mstate) != len(istate) or not close(mstate, istate, sscale):
         res.disagree(where + ":state", dict(case, sweep=sweep_no), istate[:16], mstate[:16])
         return False
@@ -692,7 +695,10 @@ def run_case(spec, res, queue, report=True):
         before = snap(w)
         trace = run_sweep(model, proxy, fail_rng, spec["fail_p"], data)
         res.evaluations += 1
-        log = check_sweep(spec, sweep_no, before, trace, data, y_ref, fail)
+        counts = {}
+        log = check_sweep(spec, sweep_no, before, trace, data, y_ref, fail, counts)
+        for k_, v_ in counts.items():
+            res.count(k_, v_)
         after = snap(w)
         # export reproduces the cache and the noise precision
         pred = None
@@ -758,15 +764,17 @@ def mvn_stream(ctx, res, lines, cbs):
                 return z.copy()
         got = np.asarray(fm.sample_mvn_from_precision(Q.copy(), mu_part=b.copy(), rng=Z()), dtype=np.float64)
         L = np.linalg.cholesky(Q)
-        want = np.linalg.solve(L.T, z) + np.linalg.solve(Q, b)
+        t1, t2 = np.linalg.solve(L.T, z), np.linalg.solve(Q, b)
+        want = t1 + t2
+        mag = float(np.max(np.abs(t1) + np.abs(t2)))
         cond = np.linalg.cond(Q)
         case = {"kind": "mvn", "Q": Q.tolist(), "b": b.tolist(), "z": z.tolist()}
         res.evaluations += 1
         res.count("mvn.cases")
-        if got.shape != (D,) or not close(got, want, np.max(np.abs(want)), tol=1e-11 * cond):
+        if got.shape != (D,) or not close(got, want, mag, tol=1e-11 * cond):
             res.fail("sample_mvn_from_precision(Q, mu_part, z) is not U^-1 z + Q^-1 mu_part", case, got.tolist(), want.tolist(), "C08:mvn")
         lines.append("c08mvn %d %s" % (D, ftok(list(Q.ravel()) + list(b) + list(z))))
-        cbs.append((case, got, float(np.max(np.abs(want))), 1e-10 * cond))
+        cbs.append((case, got, mag, 1e-10 * cond))
 
 
 def run(ctx, res):
@@ -815,8 +823,9 @@ def replay(ctx, case, res):
             def normal(self, loc=0.0, scale=1.0, size=None):
                 return z.copy()
         got = np.asarray(fm.sample_mvn_from_precision(Q.copy(), mu_part=b.copy(), rng=Z()), dtype=np.float64)
-        want = np.linalg.solve(np.linalg.cholesky(Q).T, z) + np.linalg.solve(Q, b)
-        if not close(got, want, np.max(np.abs(want)), tol=1e-11 * np.linalg.cond(Q)):
+        t1, t2 = np.linalg.solve(np.linalg.cholesky(Q).T, z), np.linalg.solve(Q, b)
+        want = t1 + t2
+        if not close(got, want, float(np.max(np.abs(t1) + np.abs(t2))), tol=1e-11 * np.linalg.cond(Q)):
             res.fail("sample_mvn_from_precision(Q, mu_part, z) is not U^-1 z + Q^-1 mu_part", case, got.tolist(), want.tolist(), "C08:mvn")
         return
     if case.get("fixed") == "selfpair-witness":
